@@ -165,6 +165,7 @@ def imputer_memo(ctx, rule='A2k'):
 
 
 def check(ctx):
+    guards.check_zero_tested_divisions(ctx, [f for f in ctx.prog.all_functions() if f.module.name.startswith('adsg_core.optimization.assign_enc')])
     # repair / counting loops of the encoders: the arrays they update are the arrays they test
     guards.check_dead_inplace_updates(ctx, [f for f in ctx.prog.all_functions() if f.module.name.startswith('adsg_core.optimization.assign_enc')])
     ctx.floor('A28', 5, 'in-place element updates of local arrays in the encoders')
